@@ -159,7 +159,40 @@ func H02a() {
 	vSameExcept(msg.Interface(), inv.Interface(), "C02.absent-fields-invalid", vFieldName(msg.Interface(), pf.sindex))
 	vAssert(d.bytes.n == n, "C02.consumed")
 	vReached("compared")
+	// A second record under the same live definition that carries the
+	// invalid value: it must decode to the invalid value whatever the
+	// first record held (nothing of a record survives into the next).
+	var data2 [255]byte
+	vPutInvalid(data2[:n], fd.btype, big)
+	vFeed(&d, data2[:])
+	d.bytes.limit = n
+	msg2, err2 := d.parseDataMessage(0, false)
+	vAssert(err2 == nil && msg2.IsValid(), "C02.second-record-decodes")
+	if err2 == nil && msg2.IsValid() {
+		vCheckValue(msg2, pf, fd, data2[:], big)
+		vSameExcept(msg2.Interface(), inv.Interface(), "C02.second-record.absent-fields-invalid", vFieldName(msg2.Interface(), pf.sindex))
+		vReached("compared-second")
+	}
 	vReached("end")
+}
+
+// vPutInvalid fills p with the invalid value of base type b, element by
+// element, in the given byte order (strings: NUL bytes).
+func vPutInvalid(p []byte, b types.Base, big bool) {
+	sz := b.Size()
+	if b == types.BaseString || sz <= 0 {
+		return
+	}
+	inv := vInvalidBits(b)
+	for o := 0; o+sz <= len(p); o += sz {
+		for k := 0; k < sz; k++ {
+			sh := uint(8 * k)
+			if big {
+				sh = uint(8 * (sz - 1 - k))
+			}
+			p[o+k] = byte(inv >> sh)
+		}
+	}
 }
 
 // vCheckValue compares field pf of the decoded message with the value the
